@@ -743,8 +743,11 @@ def c11_r6(ctx, f):
         # run threshold and bonus
         thr = [K(c[3]) for b in range(ln.n) if ln.live[b] and ln.bool_test(b) for c in [ln.canon(ln.bool_test(b)[0], ln.bool_test(b)[3])]
                if c[0] == "bin" and c[1] in ("Ge", "Gt", "Lt", "Le") and K(c[3]) is not None and c[2][0] == "phi"]
-        ctx.check(rid, thr and set(thr) <= {5, 7} and 5 in thr, ln.path + "/run-threshold", where_fn(ln), ln.path, "run threshold",
-                  "a run is not penalised from 5 equal modules on", expected="count >= 5", found=thr, sample="count >= 5 at %d sites" % thr.count(5))
+        if not thr:
+            ctx.abstain(rid, "no comparison of a loop-carried counter with a constant in score::line: the run threshold is written in a shape this rule does not read", where_fn(ln))
+        else:
+            ctx.check(rid, set(thr) <= {5, 7} and 5 in thr, ln.path + "/run-threshold", where_fn(ln), ln.path, "run threshold",
+                      "a run is not penalised from 5 equal modules on", expected="count >= 5", found=thr, sample="count >= 5 at %d sites" % thr.count(5))
         subs = set()
         for b in ln.blocks:
             if b["cleanup"]:
@@ -754,11 +757,17 @@ def c11_r6(ctx, f):
                     e = ln.canon_rv(st["rv"], (b["id"], i), 0, None)
                     if K(e[3]) is not None and e[2][0] == "phi":
                         subs.add(K(e[3]))
-        ctx.check(rid, subs == {2}, ln.path + "/run-bonus", where_fn(ln), ln.path, "run penalty", "a run of N modules does not score N-2",
-                  expected="count - 2", found=sorted(subs), sample="line_score += count - 2")
-        ctx.check(rid, 40 in consts and 0b1011101 in consts and 0b1111111 in consts, ln.path + "/pattern", where_fn(ln), ln.path, "finder-like pattern",
-                  "the 1011101 window (7 modules, 40 points) constants are not present", found=sorted(c for c in consts if c >= 7)[:8],
-                  sample="pattern 0b1011101 within mask 0b1111111 scores 40")
+        if not subs:
+            ctx.abstain(rid, "no `counter - constant` in score::line: the run penalty is written in a shape this rule does not read", where_fn(ln))
+        else:
+            ctx.check(rid, subs == {2}, ln.path + "/run-bonus", where_fn(ln), ln.path, "run penalty", "a run of N modules does not score N-2",
+                      expected="count - 2", found=sorted(subs), sample="line_score += count - 2")
+        if not ({40, 0b1011101, 0b1111111} & consts):
+            ctx.abstain(rid, "none of the pattern constants appears in score::line: the 1011101 window is scored elsewhere", where_fn(ln))
+        else:
+            ctx.check(rid, 40 in consts and 0b1011101 in consts and 0b1111111 in consts, ln.path + "/pattern", where_fn(ln), ln.path, "finder-like pattern",
+                      "the 1011101 window (7 modules, 40 points) constants are not present", found=sorted(c for c in consts if c >= 7)[:8],
+                      sample="pattern 0b1011101 within mask 0b1111111 scores 40")
         pl = f.const("score::line::PATTERN_LEN")
         ctx.check(rid, pl == 7 or pl is None, ln.path + "/pattern-len", where_fn(ln), ln.path, "pattern length", "pattern window is not 7 modules", found=pl,
                   sample="PATTERN_LEN = 7")
@@ -983,65 +992,76 @@ def c07_r2(ctx, f):
     if not store:
         ctx.abstain(rid, "no `rem[..] ^= ..` store found in division", where_fn(fn))
         return
-    st, pt = store
-    idx_local = [e["idx"] for e in st["p"]["proj"] if isinstance(e, dict) and "idx" in e][0]
-    tgt = poly.normalise(fn.canon_local(idx_local, pt), ren)
-    e = fn.canon_rv(st["rv"], pt, 0, None)
-    lvs = [a for a in tgt.atoms() if isinstance(a, tuple) and a[0] == "lv"]
-    if len(lvs) != 2:
-        ctx.abstain(rid, "xor target index is not a sum of two loop variables: %s" % tgt.show(), fn.where(pt))
-        return
-    his = {lv: loops.get(lv[1]) for lv in lvs}
+    def step():
+        st, pt = store
+        idxs = [e["idx"] for e in st["p"]["proj"] if isinstance(e, dict) and "idx" in e]
+        if not idxs:
+            ctx.abstain(rid, "the xor store does not index the buffer with a local (iterator form): the step's algebra is not read", fn.where(pt))
+            return
+        idx_local = idxs[0]
+        tgt = poly.normalise(fn.canon_local(idx_local, pt), ren)
+        e = fn.canon_rv(st["rv"], pt, 0, None)
+        lvs = [a for a in tgt.atoms() if isinstance(a, tuple) and a[0] == "lv"]
+        if len(lvs) != 2:
+            ctx.abstain(rid, "xor target index is not a sum of two loop variables: %s" % tgt.show(), fn.where(pt))
+            return
+        his = {lv: loops.get(lv[1]) for lv in lvs}
 
-    def bounds(k):
-        if not k:
+        def bounds(k):
+            if not k:
+                return None
+            if k[0] == "range0":
+                return C(0), poly.normalise(k[1], ren)
+            if k[0] == "range":
+                return poly.normalise(k[1], ren), poly.normalise(k[2], ren)
             return None
-        if k[0] == "range0":
-            return C(0), poly.normalise(k[1], ren)
-        if k[0] == "range":
-            return poly.normalise(k[1], ren), poly.normalise(k[2], ren)
-        return None
 
-    # inner loop = the one whose header is dominated by the other's header
-    hb = {lv: def_of(fn, lv[1]).point[0] for lv in lvs}
-    a_, b_ = lvs
-    if fn.dominates(hb[a_], hb[b_]) and hb[a_] != hb[b_]:
-        il, jl = [a_], [b_]
-    elif fn.dominates(hb[b_], hb[a_]):
-        il, jl = [b_], [a_]
-    else:
-        il, jl = [], []
-    if len(jl) != 1 or len(il) != 1 or bounds(his[il[0]]) is None or bounds(his[jl[0]]) is None:
-        ctx.abstain(rid, "loop structure of the division not recognised: %s" % str(his)[:200], fn.where(pt))
-        return
-    i, j = A(il[0]), A(jl[0])
-    names = {il[0]: "i", jl[0]: "j"}
-    ctx.check(rid, tgt == i + j, fn.path + "/target", fn.where(pt), fn.path, "xor target", "the step does not update rem[i + j]", expected="i + j",
-              found=tgt.show(names), sample="rem[i + j] ^= ..")
-    jlo, jhi = bounds(his[jl[0]])
-    ctx.check(rid, jlo == C(0) and jhi == G_, fn.path + "/j-range", fn.where(pt), fn.path, "inner loop",
-              "the inner loop does not run over all generator coefficients (0..len(g))",
-              expected="0 .. len(g)", found="%s .. %s" % (jlo.show(), jhi.show()), sample="j in 0..len(g)")
-    ilo, ihi = bounds(his[il[0]])
-    start = C(256) - F_ - G_
-    unk_i = [a_ for p_ in (ilo, ihi) for a_ in p_.atoms() if a_ not in ("f", "g")]
-    if unk_i and not (ilo == start and ihi == start + F_):
-        ctx.abstain(rid, "outer loop bounds outside the vocabulary: %s .. %s (compared with the dividend's cells below)" % (ilo.show(), ihi.show()),
-                    fn.where(pt))
-    else:
-      ctx.check(rid, ilo == start and ihi == start + F_, fn.path + "/i-range", fn.where(pt), fn.path, "outer loop",
-              "the outer loop does not run over the dividend positions start .. start+len(f), start = 256 - len(f) - len(g)",
-              expected="%s .. %s" % (start.show(), (start + F_).show()), found="%s .. %s" % (ilo.show(), ihi.show()), sample="i in start..start+len(f)")
-    # right-hand side
-    got = poly.normalise(e, ren)
-    rem_ij = poly.index(A("rem"), i + j)
-    alpha = poly.index(A("LOG"), poly.index(A("rem"), i))
-    term = poly.index(A("EXP"), poly.op("Rem", poly.index(A("gen"), j) + alpha, C(255)))
-    exp1 = poly.op("BitXor", rem_ij, term)
-    exp2 = poly.op("BitXor", term, rem_ij)
-    ctx.check(rid, got in (exp1, exp2), fn.path + "/step", fn.where(pt), fn.path, "xor value",
-              "the step is not rem[i+j] ^ EXP[(g[j] + LOG[rem[i]]) mod 255] with the value->exponent table inside and the exponent->value table outside",
-              expected="rem[i+j] ^ EXP[(gen[j] + LOG[rem[i]]) % 255]", found=_pretty(got, names), sample="rem[i+j] ^= EXP[(gen[j] + LOG[rem[i]]) % 255]")
+        # inner loop = the one whose header is dominated by the other's header
+        hb = {lv: def_of(fn, lv[1]).point[0] for lv in lvs}
+        a_, b_ = lvs
+        if fn.dominates(hb[a_], hb[b_]) and hb[a_] != hb[b_]:
+            il, jl = [a_], [b_]
+        elif fn.dominates(hb[b_], hb[a_]):
+            il, jl = [b_], [a_]
+        else:
+            il, jl = [], []
+        if len(jl) != 1 or len(il) != 1 or bounds(his[il[0]]) is None or bounds(his[jl[0]]) is None:
+            ctx.abstain(rid, "loop structure of the division not recognised: %s" % str(his)[:200], fn.where(pt))
+            return
+        i, j = A(il[0]), A(jl[0])
+        names = {il[0]: "i", jl[0]: "j"}
+        ctx.check(rid, tgt == i + j, fn.path + "/target", fn.where(pt), fn.path, "xor target", "the step does not update rem[i + j]", expected="i + j",
+                  found=tgt.show(names), sample="rem[i + j] ^= ..")
+        jlo, jhi = bounds(his[jl[0]])
+        ctx.check(rid, jlo == C(0) and jhi == G_, fn.path + "/j-range", fn.where(pt), fn.path, "inner loop",
+                  "the inner loop does not run over all generator coefficients (0..len(g))",
+                  expected="0 .. len(g)", found="%s .. %s" % (jlo.show(), jhi.show()), sample="j in 0..len(g)")
+        ilo, ihi = bounds(his[il[0]])
+        start = C(256) - F_ - G_
+        unk_i = [a_ for p_ in (ilo, ihi) for a_ in p_.atoms() if a_ not in ("f", "g")]
+        if unk_i and not (ilo == start and ihi == start + F_):
+            ctx.abstain(rid, "outer loop bounds outside the vocabulary: %s .. %s (compared with the dividend's cells below)" % (ilo.show(), ihi.show()),
+                        fn.where(pt))
+        else:
+          ctx.check(rid, ilo == start and ihi == start + F_, fn.path + "/i-range", fn.where(pt), fn.path, "outer loop",
+                  "the outer loop does not run over the dividend positions start .. start+len(f), start = 256 - len(f) - len(g)",
+                  expected="%s .. %s" % (start.show(), (start + F_).show()), found="%s .. %s" % (ilo.show(), ihi.show()), sample="i in start..start+len(f)")
+        # right-hand side
+        got = poly.normalise(e, ren)
+        rem_ij = poly.index(A("rem"), i + j)
+        alpha = poly.index(A("LOG"), poly.index(A("rem"), i))
+        term = poly.index(A("EXP"), poly.op("Rem", poly.index(A("gen"), j) + alpha, C(255)))
+        exp1 = poly.op("BitXor", rem_ij, term)
+        exp2 = poly.op("BitXor", term, rem_ij)
+        ctx.check(rid, got in (exp1, exp2), fn.path + "/step", fn.where(pt), fn.path, "xor value",
+                  "the step is not rem[i+j] ^ EXP[(g[j] + LOG[rem[i]]) mod 255] with the value->exponent table inside and the exponent->value table outside",
+                  expected="rem[i+j] ^ EXP[(gen[j] + LOG[rem[i]]) % 255]", found=_pretty(got, names), sample="rem[i+j] ^= EXP[(gen[j] + LOG[rem[i]]) % 255]")
+        return ilo, ihi
+
+    ilo = ihi = None
+    _b = step()
+    if _b:
+        ilo, ihi = _b
     # dividend placement
     cs = [c for c in fn.calls() if (c.name or "").endswith("::copy_from_slice")]
     if len(cs) != 1:
@@ -1114,8 +1134,11 @@ def c07_r2(ctx, f):
             whole = src_lo == C(0) and src_len == F_
             ends = dhi == C(256) - G_
             fits = (dhi - dlo) == src_len
-            loop = ilo == dlo and ihi == dhi
-            if whole and ends and fits and loop:
+            loop = (ilo == dlo and ihi == dhi) if ilo is not None else None
+            if loop is None:
+                # the outer loop's range was not read: only a copy that visibly ends in the wrong place is decided
+                verdict = False if (fits and not ends and not unknown) else None
+            elif whole and ends and fits and loop:
                 verdict = True
             elif ends and fits and loop and not whole:
                 verdict = None  # a part of the dividend is left out and everything else is aligned: whether that part matters is not decided
